@@ -15,7 +15,7 @@ fork over all targets. Calls to crate-local functions that have no effect at all
 the argument values (bounded depth); other calls give UNK unless the client's `on_call` hook says otherwise. There is
 no solver and nothing is executed: this is constant propagation with path splitting, bounded in states and steps
 (a run that exceeds its budget reports `exhausted` and the client must treat the answer as unknown)."""
-from core import op_local, strip_crate
+from core import op_local, strip_crate, mem_loc
 
 UNK = ('unk',)
 
@@ -46,6 +46,7 @@ class AbsInt(object):
         self.max_steps = max_steps
         self.max_depth = max_depth
         self.exhausted = False
+        self.on_binop = None      # client hook: (body, rvalue, value_a, value_b) -> value or None
         self._memo = {}
 
     # ---------------------------------------------------------------- values
@@ -68,7 +69,17 @@ class AbsInt(object):
             return ('tup', ())
         return UNK
 
+    def _mem_key(self, pl):
+        """('m', 'Adt.field') when pl is exactly a field of an ADT reached through a dereference (`(*self).flag`)"""
+        if not pl['p'] or pl['p'][-1]['k'] != 'field' or not any(e['k'] == 'deref' for e in pl['p']):
+            return None
+        loc = mem_loc(pl)
+        return ('m', loc) if loc else None
+
     def read_place(self, env, pl):
+        mk = self._mem_key(pl)
+        if mk is not None:
+            return env.get(mk, UNK)
         v = env.get(pl['l'], UNK)
         for e in pl['p']:
             k = e['k']
@@ -104,6 +115,10 @@ class AbsInt(object):
         return UNK
 
     def write_place(self, env, pl, val):
+        mk = self._mem_key(pl)
+        if mk is not None:
+            env[mk] = val
+            return
         if not pl['p']:
             env[pl['l']] = val
             return
@@ -162,6 +177,10 @@ class AbsInt(object):
         if k == 'binop':
             a, b_ = self.eval_op(env, rv['a']), self.eval_op(env, rv['b'])
             op = rv['op']
+            if self.on_binop is not None:
+                r_ = self.on_binop(body, rv, a, b_)
+                if r_ is not None:
+                    return r_
             base = op.replace('WithOverflow', '').replace('Unchecked', '')
             if isinstance(a, tuple) and isinstance(b_, tuple) and a and b_ and a[0] == 'i' and b_[0] == 'i':
                 x, y = a[1], b_[1]
